@@ -18,6 +18,8 @@ def psql(p, top=True):
     t = p["t"]
     if t == "var": return p["v"]
     if t == "seq": return " ".join(psql(x, False) for x in p["ps"])
+    if t == "alt" and "perm" in p:
+        return "PERMUTE(%s)" % ", ".join(p["perm"])
     if t == "alt":
         s = " | ".join(psql(x, False) for x in p["ps"])
         return "(" + s + ")" if not top else s
@@ -154,6 +156,39 @@ def mk(rng, interleave, nparts):
     return {"meta": meta, "sql": sql, "rows": rows, "stop": True}
 
 
+def permute(*vs):
+    """PERMUTE(A, B, ..): every order of the variables, each exactly once - written PERMUTE in the SQL text, the alternation of all orders for the monitor"""
+    return dict(alt(*[seq(*[var(v) for v in o]) for o in itertools.permutations(vs)]), perm=list(vs))
+
+
+def mk_permute(rng, nparts):
+    n = rng.choice([2, 3, 3, 3, 4])
+    vs = ["A", "B", "C", "D"][:n]
+    pat = rng.choice([permute(*vs), seq(permute(*vs), q(var("E"), 0, 1)), seq(var("S"), permute(*vs))])
+    vals = list(range(1, n + 1)); rng.shuffle(vals)
+    defs = [{"v": v, "k": "eq", "c": c * 10000} for v, c in zip(vs, vals)]
+    dsql = ["%s AS v = %d" % (v, c) for v, c in zip(vs, vals)]
+    if "E" in vars_of(pat, []): defs.append({"v": "E", "k": "gt", "c": 0}); dsql.append("E AS v > 0")
+    if "S" in vars_of(pat, []): defs.append({"v": "S", "k": "lt", "c": 10000}); dsql.append("S AS v < 1")
+    skip = rng.choice(["past", "past", "next"])
+    part = "g" if nparts > 1 else rng.choice(["", "g"])
+    pvals = ["p0", "p1", "p2"]
+    sql = "SELECT * FROM stream MATCH_RECOGNIZE (%sORDER BY ts MEASURES MATCH_NUMBER() AS mn, FIRST(id) AS f, LAST(id) AS l, COUNT(*) AS n, FIRST(g) AS g ONE ROW PER MATCH AFTER MATCH %s PATTERN (%s) DEFINE %s)" % (
+        "PARTITION BY g " if part else "", "SKIP PAST LAST ROW" if skip == "past" else "SKIP TO NEXT ROW", psql(pat), ", ".join(dsql))
+    rows, i = [], 0
+    for pn in range(nparts):
+        seqv = []
+        for _ in range(rng.choice([1, 2, 2])):       # mostly whole words of the permutation, in a random order, with a stray row now and then
+            o = list(range(1, n + 1)); rng.shuffle(o)
+            seqv += ([0] if rng.random() < 0.5 else []) + o
+        if rng.random() < 0.3: seqv[rng.randrange(len(seqv))] = rng.choice([0, 1, 2, 3])
+        for v in seqv:
+            i += 1
+            rows.append({"id": i, "ts": i, "g": pvals[pn], "v": v})
+    meta = {"fam": "cep", "pat": pat, "defs": defs, "skip": skip, "part": part}
+    return {"meta": meta, "sql": sql, "rows": rows, "stop": True}
+
+
 def mk_within_skew(rng):
     """WITHIN with partitions whose clocks disagree: each partition's own timestamps stay well inside WITHIN (so WITHIN cuts nothing), while
     the partitions run hundreds of milliseconds apart and their rows arrive interleaved - a partition's matches are what they are without
@@ -215,6 +250,8 @@ def run(tier):
         scen.append(mk_idle(rng))
     for i in range(250 if quick else 8000):
         scen.append(mk_allrows(rng, [1, 1, 2][i % 3]))
+    for i in range(200 if quick else 6000):
+        scen.append(mk_permute(rng, [1, 1, 2][i % 3]))
     made = 0
     while made < (200 if quick else 6000):
         sc = mk_within_skew(rng)
@@ -224,7 +261,7 @@ def run(tier):
     seqfam.run_pinned(res, "TraceCep")
     res.cov["exhaustive"] = False
     res.cov["distinct_nontrivial"] = len({s["sql"] + json.dumps(s["rows"], sort_keys=True) for s in scen})
-    res.cov["rule"] = ("seeded (pattern, DEFINE, SKIP rule, stream) cases: %d pattern shapes (sequence, + * ? {n} {n,} {n,m}, alternation) x DEFINE menu x SKIP PAST LAST ROW / TO NEXT ROW x streams of 3-7 rows per partition over v in {0,1,2,3}, "
+    res.cov["rule"] = ("seeded (pattern, DEFINE, SKIP rule, stream) cases: %d pattern shapes (sequence, + * ? {n} {n,} {n,m}, alternation, PERMUTE of 2-4 variables) x DEFINE menu x SKIP PAST LAST ROW / TO NEXT ROW x streams of 3-7 rows per partition over v in {0,1,2,3}, "
                        "1-3 partitions, fed one after the other or interleaved, Stop (flush) at the end; distinct = distinct (SQL, rows)") % len(PATTERNS)
     res.assumptions = ASSUME
     for mx in ([7] if quick else [8, 9]):
